@@ -235,7 +235,8 @@ fn runs(out: &mut Out, r: &mut Rng, count: u64, long: u64) {
             cpu.set_im(1);
         }
         let t0 = emu.verif_frame_clocks();
-        let k_total = if halt_variant { 1 + r.below(long) } else { 1 + r.below(12) } as usize;
+        // (the first two HALT runs are long whatever the tier: more than 256 frames, some of them in one FrameCount(n) call)
+        let k_total = if halt_variant && ri < 6 { 260 + r.below(90) } else if halt_variant { 1 + r.below(long) } else { 1 + r.below(12) } as usize;
         // host slicing: any partition of k_total into FrameCount(n) calls
         // ... with, in half of the runs, breakpoint stops every bp_k instructions in between: the host resumes until
         // the call's frames are reported complete
